@@ -567,6 +567,13 @@ def directed():
          {"xs": [1, -1], "x": 5}, {"placement": {"x": "global"}, "force_env": ["x"]}),
         ("loop-shadows-param", ["cmp", call("len", ["comp", "list", N("x"), None, [[["x"], False, N("xs"), [["cmp", N("x"), [[">", K(0)]]]]]]]), [[">", N("x")]]],
          {"xs": [1, -1], "x": 5}, {}),
+        # the iterable of a later clause uses the loop variable of an earlier one, which has the name of an outer variable
+        ("later-iterable-shadows-param", call("all", ["comp", "gen", ["cmp", N("w"), [[">", K(0)]]], None,
+                                                      [[["x"], False, N("xss"), []], [["w"], False, call("sorted", N("x")), []]]]),
+         {"xss": [[1], [-1]], "x": [7]}, {"placement": {"x": "param", "xss": "param"}, "force_env": ["x"]}),
+        ("later-iterable-shadows-param-list", ["cmp", call("len", ["comp", "list", N("w"), None,
+                                                                   [[["x"], False, N("xss"), []], [["w"], False, call("sorted", N("x")), []]]]), [[">", K(5)]]],
+         {"xss": [[1], [-1]], "x": [7]}, {"placement": {"x": "param", "xss": "param"}, "force_env": ["x"]}),
         # speculative evaluation inside a comprehension (the documented limitation, D12b)
         ("spec-elt", ["bool", "and", [call("all", gen_v(["cmp", ["bin", "//", K(10), N("n")], [[">", N("v")]]], N("xs"))), N("flag")]],
          {"xs": [], "n": 0, "flag": False}, {}),
